@@ -281,9 +281,16 @@ def check(spec):
         feats["mps_multirz"] = tgt["method"] == "mps" and (spec_level or dev_level)
         feats["tn_multirz"] = tgt["method"] == "tn" and (spec_level or dev_level)
     # default.qubit (the reference side) sizes and orders wire-less results of a device without wires by the tape left after ITS preprocessing,
-    # which deletes Barrier: a wire that only carries a Barrier is dropped (or moved behind the gate wires when a measurement names it).
-    used = {w for o in spec["ops"] if _leaf(o) != "Barrier" for w in _leafspec(o).get("w", [])}
-    feats["barrier_only_wire"] = bool(not dev_wires and any(w not in used for o in spec["ops"] if _leaf(o) == "Barrier" for w in _leafspec(o).get("w", [])))
+    # which deletes Barrier: a wire that only carries a Barrier is dropped (or moved behind the gate wires when a measurement names it), a wire whose first use is a
+    # Barrier moves to the position of its first gate.
+    # The class: the first-use order (or the set) of the gate wires changes when the Barriers are deleted.
+    def _first_use(skip_barrier):
+        out = []
+        for o in spec["ops"]:
+            if not (skip_barrier and _leaf(o) == "Barrier"):
+                out += [w for w in _leafspec(o).get("w", []) if w not in out]
+        return out
+    feats["barrier_first_use"] = bool(not dev_wires and _first_use(False) != _first_use(True))
     if not dev_wires and not len(tape_b.wires):
         raise Reject("no wires at all")
     if not dev_wires and any(m["mp"] == "state" for m in spec["meas"]) and set(tape_b.wires) != set(w for op in ops_b for w in op.wires):
@@ -356,8 +363,8 @@ def check(spec):
         if nm == "reference.qubit" and batch == 1 and m.get("obs") and m["obs"]["op"] in ("s_prod", "sum", "lincomb") and not pre:
             pre = "batch1-sum:"
             f2["ref_batch1_sum"] = True
-        if feats.get("barrier_only_wire") and wireless and nm in ("default.clifford", "reference.qubit"):
-            pre = "barrier-only:"
+        if feats.get("barrier_first_use") and wireless and nm in ("default.clifford", "reference.qubit"):
+            pre = "barrier-first-use:"
         t = tol
         if name == "StateMP" and nm in ("default.tensor", "reference.qubit") and dev_wires and g.shape == b.shape and not close(g, b, t):
             alt_order = _standard_order(tape_t)
